@@ -114,6 +114,38 @@ class Audit:
             self.events.append((event, repr(args)[:200], None, None, org))
 
 
+def make_dirty_vhdx(path):
+    """Rewrite the VHDX at `path` into one that was not closed cleanly: both headers carry a LogGuid and the log holds one
+    valid entry (CRC-32C) with one data descriptor that rewrites the first 4 KiB of payload block 0.  A reader may use the
+    log to present the data; it must not write the replayed sectors (or anything else) back."""
+    import uuid
+    from dissect.util.hash import crc32c
+    img = bytearray(open(path, "rb").read())
+    hfmt = "<4sIQ16s16s16sHHIQ"
+    f = struct.unpack_from(hfmt, img, 0x10000)
+    log_length, log_offset = f[8], f[9]
+    guid = uuid.UUID(int=0xC09C09C09C09C09C09C09C09C09C09C0).bytes_le
+    seq = 0x1122334455667788
+    target = 0x400000
+    sector = b"PENDING-LOG-DATA" + bytes(img[target + 16:target + 4096])
+    desc = struct.pack("<4s4s8sQQ", b"desc", sector[-4:], sector[:8], target, seq)
+    data = b"data" + struct.pack("<I", seq >> 32) + sector[8:-4] + struct.pack("<I", seq & 0xFFFFFFFF)
+    hdr = struct.pack("<4sIIIQII16sQQ", b"loge", 0, 8192, 0, seq, 1, 0, guid, len(img), len(img))
+    entry = bytearray((hdr + desc).ljust(4096, b"\x00") + data)
+    struct.pack_into("<I", entry, 4, crc32c.crc32c(bytes(entry)))
+    img[log_offset:log_offset + log_length] = bytes(log_length)
+    img[log_offset:log_offset + 8192] = entry
+    for off in (0x10000, 0x20000):
+        h = bytearray(img[off:off + 4096])
+        struct.pack_into("<16s", h, 48, guid)
+        struct.pack_into("<I", h, 4, 0)
+        struct.pack_into("<I", h, 4, crc32c.crc32c(bytes(h)))
+        img[off:off + 4096] = h
+    os.chmod(path, 0o644)
+    with open(path, "wb") as o:
+        o.write(bytes(img))
+
+
 class Proxy:
     """a caller-supplied handle: forwards the read-only alphabet to a file opened O_RDONLY, records everything else"""
 
@@ -263,8 +295,9 @@ VMX_DOC = '.encoding = "UTF-8"\nscsi0.present = "TRUE"\nscsi0:0.fileName = "a.vm
 
 FAMILIES = {
     # family: list of (variant, sample or None)
-    "vhd": [("fixed", "fixed.vhd.gz"), ("dynamic", "dynamic.vhd.gz")],
+    "vhd": [("fixed", "fixed.vhd.gz"), ("dynamic", "dynamic.vhd.gz"), ("dynamic-rwhandle", "dynamic.vhd.gz")],
     "vhdx": [("fixed", "fixed.vhdx.gz"), ("dynamic", "dynamic.vhdx.gz"), ("dynamic-path", "dynamic.vhdx.gz"),
+             ("dynamic-rwhandle", "dynamic.vhdx.gz"), ("dirty-rwhandle", "dynamic.vhdx.gz"), ("dirty-path", "dynamic.vhdx.gz"),
              ("differencing-path", "differencing.avhdx.gz"), ("differencing-path-parent-present", "differencing.avhdx.gz")],
     "vmdk": [("sesparse", "sesparse.vmdk.gz"), ("sesparse-path", "sesparse.vmdk.gz"), ("flat-descriptor", None),
              ("flat-descriptor-parent", None), ("flat-descriptor-parent-present", None), ("handle-list", None)] +
@@ -273,12 +306,12 @@ FAMILIES = {
                         "monolithicFlat", "vmfs", "custom", "streamOptimized")
              for acc in ("RW", "RDONLY")],
     "hdd": [("plain", "plain.hdd"), ("expanding", "expanding.hdd"), ("split", "split.hdd")],
-    "qcow2": [("synthetic", None), ("synthetic-64k", None)],
-    "vdi": [("synthetic", None)],
-    "hyperv": [("vmcx", "test.vmcx"), ("vmrs", "test.VMRS")],
+    "qcow2": [("synthetic", None), ("synthetic-64k", None), ("synthetic-rwhandle", None)],
+    "vdi": [("synthetic", None), ("synthetic-rwhandle", None)],
+    "hyperv": [("vmcx", "test.vmcx"), ("vmrs", "test.VMRS"), ("vmcx-rwhandle", "test.vmcx")],
     "vmx": [("encrypted", "encrypted.vmx"), ("plain", None)],
     "xml": [("ovf", None), ("vbox", None), ("pvs", None)],
-    "envelope": [("library", None), ("cli", None)],
+    "envelope": [("library", None), ("cli", None), ("cli-outdir", None), ("cli-outdir-upper", None)],
     "vmtar": [("sample-handle", "test.vgz"), ("sample-path", "test.vgz"), ("gz-handle", "test.vgz"), ("visortarfile", "test.vgz"),
               ("synthetic-handle", None), ("synthetic-path", None), ("gz-path", "test.vgz"), ("big-gz-path", None),
               ("big-gz-handle", None)],
@@ -335,6 +368,15 @@ class AuditSuite(Suite):
             before = tree_state(root)
 
             def H(path, text=False):
+                if case["variant"].endswith("rwhandle"):
+                    was = aud.active
+                    aud.active = False                           # the caller's own open is not the library's doing
+                    try:
+                        raw = open(path, "r+" if text else "r+b")    # the caller's read/write handle, handed over as is
+                    finally:
+                        aud.active = was
+                    handles.append(raw)
+                    return raw
                 raw = open(path, "r" if text else "rb")          # OS-level read-only
                 handles.append(raw)
                 return Proxy(raw, log, os.path.basename(path))
@@ -357,6 +399,12 @@ class AuditSuite(Suite):
                 except Exception:  # noqa: BLE001
                     pass
             after = tree_state(root)
+            if expected_new == "ANY-NEW":
+                # output location chosen by the tool inside a directory the user named: files that did not exist before
+                # may appear; nothing that existed may change
+                expected_new = [os.path.join(root, k) for k in after if k not in before] + \
+                    [ev[1] for ev in aud.events if ev[0] == "open" and
+                     os.path.relpath(os.path.realpath(ev[1]), os.path.realpath(root)) not in before]
             # ---- evaluate
             for ev in aud.events:
                 kind, a, mode, flags, org = ev
@@ -392,6 +440,8 @@ class AuditSuite(Suite):
         return res
 
     def expected_new(self, case, root):
+        if case["variant"].startswith("cli-outdir"):
+            return "ANY-NEW"
         return [os.path.join(root, "out.bin")] if case["variant"] == "cli" else []
 
     def prepare(self, case, root):
@@ -406,6 +456,8 @@ class AuditSuite(Suite):
                 p0 = materialise_sample("dynamic.vhdx.gz", root)
                 paths["parent"] = os.path.join(root, "Generation 1_49C4BAF3-4B25-4406-8C4B-D39E65C32385.avhdx")
                 os.rename(p0, paths["parent"])
+        if fam == "vhdx" and variant.startswith("dirty"):
+            make_dirty_vhdx(paths["main"])
         if fam == "vmdk" and variant.startswith("flat-descriptor"):
             if variant.endswith("parent-present"):
                 # child in <root>/child, parent in the sibling directory <root>/base: found through the second candidate
@@ -453,6 +505,10 @@ class AuditSuite(Suite):
         if fam == "envelope":
             paths["main"] = materialise_sample("local.tgz.ve", root)
             paths["keystore"] = materialise_sample("encryption.info", root)
+            if variant == "cli-outdir-upper":
+                up = os.path.join(root, "LOCAL.TGZ.VE")
+                os.rename(paths["main"], up)
+                paths["main"] = up
         if fam == "vmtar" and variant.startswith("synthetic"):
             from harness.props import c20                      # C20's archive generator: mixed visor / standard members
             arch = c20.gen_wf(core.Rng(case["seed"]), "quick", with_long=bool(case["seed"] & 1))
@@ -485,7 +541,9 @@ class AuditSuite(Suite):
         damage_file(target, case["damage"], case["seed"])
         for p in list(paths.values()):
             if os.path.isfile(p):
-                os.chmod(p, 0o444)
+                # "-rwhandle": the caller hands over a handle it opened read/write (a generic I/O layer does): the file
+                # itself must be writable for that, and any write then shows in the before/after comparison of the tree
+                os.chmod(p, 0o644 if variant.endswith("rwhandle") else 0o444)
         return paths
 
     def workload(self, case, paths, H, root):
@@ -552,6 +610,19 @@ class AuditSuite(Suite):
                 from dissect.hypervisor.descriptor.pvs import PVS
                 list(PVS(H(main, text=True)).disks())
         elif fam == "envelope":
+            if variant.startswith("cli-outdir"):
+                # -o names a directory (the evidence directory itself): the tool may refuse or write a new file there;
+                # it must not touch the envelope or the keystore, whatever the envelope is called
+                from dissect.hypervisor.tools import envelope as cli
+                argv = sys.argv
+                sys.argv = ["envelope", main, "-ks", paths["keystore"], "-o", root]
+                try:
+                    cli.main()
+                except (IsADirectoryError, PermissionError, SystemExit):
+                    pass
+                finally:
+                    sys.argv = argv
+                return "ANY-NEW"
             if variant == "cli":
                 from dissect.hypervisor.tools import envelope as cli
                 out = os.path.join(root, "out.bin")
